@@ -14,7 +14,7 @@ import (
 // value satisfying okVal when given). Returns the number of assignment sites seen.
 func (r *Run) assignsFieldOnAllPaths(fn ast.Node, construct string, f *types.Var, okVal func(c *pathsim.Ctx, rhs ast.Expr) bool, tag, why string) int {
 	n := 0
-	spec := &pathsim.Spec{Step: func(c *pathsim.Ctx, s pathsim.State, ev *pathsim.Event) []pathsim.State {
+	spec := &pathsim.Spec{InlineCalls: true, Step: func(c *pathsim.Ctx, s pathsim.State, ev *pathsim.Event) []pathsim.State {
 		if ev.Kind == pathsim.EvAssign {
 			for i, l := range ev.Lhs {
 				if prog.SelField(c.Info, l) == f {
